@@ -198,7 +198,11 @@ def vec_info(F, tyid):
     for i, (o, s) in enumerate(lanes):
         if s != esz or o != i * esz:
             return None
-    return {'name': name, 'dim': dim, 'lanes': lanes, 'esz': esz, 'elem_ty': lv[0][2], 'nleaves': len(lv)}
+    pre = name[:name.index('Vec')] if 'Vec' in name else ('D' if name == 'DQuat' else '')
+    elem = {'': 'f32', 'D': 'f64', 'I': 'i32', 'U': 'u32', 'B': 'bool', 'USize': 'u%d' % (8 * F.ptr_size)}.get(pre)
+    if elem is None:
+        elem = pre.lower()
+    return {'name': name, 'dim': dim, 'lanes': lanes, 'esz': esz, 'elem_ty': lv[0][2], 'nleaves': len(lv), 'elem': elem}
 
 
 def leaves_plain(F, tyid, base=0, out=None):
